@@ -1,6 +1,6 @@
 (* correspondence glue for C17: an operation sequence with the outputs the real
    singleapp / multiapp produced; case_ok replays the sequence on the model. *)
-From V Require Export Base.Hex App.Spec App.Single App.Multi.
+From V Require Export Base.Hex App.Spec App.Single App.Multi App.Fixed.
 
 Definition out_eqb (a b : out) : bool :=
   match a, b with
@@ -21,8 +21,17 @@ Inductive case :=
 (* multiapp.Open(new dir, fileSize, prealloc, metadata, options); ops; observed outputs *)
 | CMulti (fs : N) (prealloc : bool) (meta : bytes) (o : oopts) (ops : list op) (outs : list out).
 
+(* SWITCH: false = the models of the code as it is (Single.v, Multi.v); true = the models of the code
+   with fixes/C17-rewind-truncates.diff applied (Fixed.v).  Flip it in the same step as the fix commit
+   (and replace Properties/C17.v by Properties/C17Fixed.v, known_findings: known -> fixed). *)
+Definition use_fixed_models : bool := false.
+
 Definition case_ok (c : case) : bool :=
   match c with
-  | CSingle p m o ops outs => list_eqb out_eqb (s_run (s_create p m o) ops) outs
-  | CMulti fs p m o ops outs => list_eqb out_eqb (m_run (m_create fs p m o) ops) outs
+  | CSingle p m o ops outs =>
+      list_eqb out_eqb
+        (if use_fixed_models then s_run_fx (negb (p =? 0)) (s_create p m o) ops else s_run (s_create p m o) ops) outs
+  | CMulti fs p m o ops outs =>
+      list_eqb out_eqb
+        (if use_fixed_models then m_run_fx (m_create fs p m o) ops else m_run (m_create fs p m o) ops) outs
   end.
